@@ -39,7 +39,7 @@ CLAIMED = {
    design_ref="DESIGN.md section 4 C06",
    note=TB + "Oracle hypotheses on exchange.expm are VALIDATED numerically (degree-30 Taylor in Fractions, semigroup, derivative, closed form) for generators with a "
         "well-conditioned eigenbasis, not proved; Model/Exchange.v tied by exact dyadic correspondence with op.mat injected and with exchange.expm temporarily replaced by the "
-        "identity inside the harness (run-time monkeypatch, no source change); batched kinetic-matrix layouts and defective generators are known findings. Axioms: classical reals, funext, classic.",
+        "identity inside the harness (run-time monkeypatch, no source change); batched kinetic-matrix layouts (exchange axis anywhere, fewer axes than tau, bigger states; repaired by /repo ce28d2e) are judged against Bloch-McConnell and scalar runs; defective generators are a known finding. Axioms: classical reals, funext, classic.",
    technique="Coq proof under oracle hypotheses (+ unconditional two-pool closed form) + exact correspondence + numerical validation of the oracle"),
  "C07": dict(
    text="Machine-checked proof (Coq) on the shape algebra of epgpy modelled faithfully (append-aligned expand_shapes / broadcastable / broadcast_shapes, numpy's "
@@ -60,11 +60,13 @@ CLAIMED = {
    design_ref="DESIGN.md section 4 C09, section 9 items 2, 3, 5, 12",
    note=TB + "History correspondence (random testing): byte-level snapshots of every live object before/after every call, shared-object vs deep-copy differential "
         "execution, np.shares_memory, repeated identical calls, PYTHONHASHSEED subprocess sweep (6 quick / 48 thorough), exact vm_compute evaluation of synthetic histories. "
-        "Two known findings (Probe.__call__ returns its input; out-of-place non-differentiable operators drop partials). Axioms: none.",
+        "One known finding (Probe.__call__ returns its input); the former one (out-of-place non-differentiable operators dropped the partials) is repaired by /repo 8521bf9 "
+        "and checked as a regression. Axioms: none.",
    technique="Coq proof on a pure store model + history correspondence with byte-level snapshots and hash-seed sweep"),
  "C10": dict(
    text="Machine-checked proof (Coq): simulate_nested_eq_flat / regrouping_immaterial (any nesting of lists and any '*' grouping gives the state of the flat sequence, by "
-        "induction over the nested structure), multi_duration, multi_nshift, and combine_apply_states (whenever '@' accepts two operands -- scalar@scalar, matrix@matrix, "
+        "induction over the nested structure; nested_eq_flat_with_partials / nested_probes_eq_flat: the same with all first- and second-order partials, Jacobian and Hessian "
+        "probes, for differentiable and plain instructions, '*' groups applying their members in turn), multi_duration, multi_nshift, and combine_apply_states (whenever '@' accepts two operands -- scalar@scalar, matrix@matrix, "
         "matrix@scalar, scalar@matrix, with or without recovery terms -- the combined arrays act on any state matrix exactly as the operands applied in order). The clause on "
         "FIRST-order partials of '@' is a theorem for operands that declare their parameters under their own names (order1=True / a name / a list of names): "
         "combine_order1 -- if the combined operator holds the arrays, derivative arrays and merged order1 that _combine is modelled to build (combined_ok, "
@@ -201,7 +203,7 @@ CLAIMED = {
  "C02": dict(
    text="Machine-checked proof (Coq) in two halves. (a) Bookkeeping: diff.py's DiffOperator.__call__/_apply_order1/combine_partials/"
         "accumulate are transcribed literally (Model/Diff.v, dictionaries as association lists); for ANY derivation dv of the scalar "
-        "ring and every program of differentiable operators (ScalarOp, MatrixOp, shifts incl. truncation) plus Wait/PD(reset=False), "
+        "ring and every program of differentiable operators (ScalarOp, MatrixOp, shifts incl. truncation) and of operators without differentiable parameter (Wait, SPOILER, RESET, PD with or without reset, which act on the partials through Operator._apply_partial since /repo 8521bf9), "
         "if each operator's arrays satisfy the chain rule through its declared coefficients then the partial carried for a variable "
         "equals dv of the simulated state, and the Jacobian column equals dv(signal) (order1_run, jacobian_exact, by induction over "
         "programs; lookup_order1 characterises the dictionary for every declaration form). (b) Analysis: the 13 closed-form "
@@ -213,9 +215,10 @@ CLAIMED = {
         "soundness of the plain run, induction over programs), C02_real_sequence_jacobian and C02_real_operators_jacobian (end to end: "
         "every sequence of T, Phi, E, P, R with ONE parameter each driven affinely by the variable -- alpha, phi; tau, T1, T2, g; "
         "Re rT, rL, r0 -- declared {v: {param: c}}, constant operators and shifts with or without nmax, using the TRANSLATED "
-        "derivative arrays). The clause 'whatever non-differentiable "
-        "operators occur' is REFUTED (jacobian_refuted_spoiler) and listed as a known finding; the model is 1-D: for n-D shifts the "
-        "implementation shifts every partial state matrix on its own (pruning/merging independently), a second known finding found "
+        "derivative arrays, with SPOILER, RESET, PD(pd, reset) and Wait anywhere in the sequence). The clause 'whatever non-differentiable "
+        "operators occur' was REFUTED on the pinned tree (jacobian_refuted_spoiler); the defect is repaired (/repo 8521bf9), the theorems now quantify over those "
+        "operators and the former witness is a regression theorem (jacobian_through_spoiler); the model is 1-D: for n-D shifts the "
+        "implementation shifts every partial state matrix on its own (pruning/merging independently), a known finding found "
         "by testing (exact with integer shifts and prune=0, which the n-D stream checks against central differences).",
    design_ref="DESIGN.md section 4 C02, section 9 item 10",
    note=TB + "Translator validated by the Interval tie; Model/Diff.v tied to diff.py by exact correspondence of sm.order1 after every operator of "
